@@ -346,3 +346,7 @@ mod tests {
         }
     }
 }
+
+#[cfg(futures_buffered_verif)]
+#[path = "/verif/hooks/merge_unbounded.rs"]
+mod verif_hooks;
